@@ -551,6 +551,9 @@ func (c *converter) mustCurrentForVar() string {
 func (c *converter) varName(name string, global bool) string {
 	if c.inFunction() && !global {
 		name = fmt.Sprintf("f%d_%s", c.funcCounter, name)
+	} else if name == "_" {
+		// "$_" is a special parameter which Bash itself overwrites after every command.
+		name = "_blank"
 	}
 	return name
 }
